@@ -20,8 +20,9 @@ import time
 import traceback
 
 VERIF_DIR = os.path.dirname(os.path.dirname(os.path.abspath(__file__)))
-EVIDENCE_DIR = os.path.join(VERIF_DIR, "evidence")
-REPLAY_DIR = os.path.join(VERIF_DIR, "replays")
+_OUT = os.environ.get("VERIF_OUT") or VERIF_DIR  # mutant runs write elsewhere
+EVIDENCE_DIR = os.path.join(_OUT, "evidence")
+REPLAY_DIR = os.path.join(_OUT, "replays")
 FINDINGS_FILE = os.path.join(VERIF_DIR, "known_findings.json")
 NPROC = int(os.environ.get("VERIF_NPROC", "0")) or min(16, os.cpu_count() or 1)
 
@@ -198,8 +199,11 @@ class Check:
             else:
                 unknown.append(sig)
         os.makedirs(REPLAY_DIR, exist_ok=True)
-        for sig in unknown:
+        for n, sig in enumerate(unknown):
             v = self.violations[sig]
+            if n >= 25:
+                print(f"  ... and {len(unknown) - 25} more violation signatures (not written out)")
+                break
             digest = hashlib.sha1(sig.encode()).hexdigest()[:10]
             path = os.path.join(REPLAY_DIR, f"{self.pid}-{digest}.json")
             with open(path, "w") as f:
